@@ -241,7 +241,12 @@ pub fn f20_class(raw: &[u8]) -> bool {
             for h in req.headers.iter() {
                 let n = h.name.to_ascii_lowercase();
                 match n.as_str() {
-                    "host" | "x-forwarded-host" => {
+                    "host" => {
+                        // ConnectionInfo takes the Host header whole (no comma splitting)
+                        hosts += 1;
+                        bad |= !simple_authority(h.value);
+                    }
+                    "x-forwarded-host" => {
                         hosts += 1;
                         let first = h.value.split(|b| *b == b',').next().unwrap_or(b"");
                         bad |= !simple_authority(first);
